@@ -75,19 +75,47 @@ SPECS = {
 }
 
 
-def run_cases(pid, S, T, work, cases, rep_seed, tag):
+def _run_harness(S, T, work, cases, rep_seed, tag):
+    """Run the harness on the cases.  Returns (trace path, process, died): `died` when the code under test ended
+    the harness process (abort, uncaught panic, fatal signal) -- that is an outcome of the code, not a tool error."""
     cf = work.path("cases-%s.jsonl" % tag)
     with open(cf, "w") as f:
         for c in cases:
             f.write(json.dumps(c) + "\n")
     trace = work.path("trace-%s.ndjson" % tag)
     cmd = [os.path.join(BIN, S.get("bin", "pure")), S["sub"], "--cases", cf, "--out", trace, "--seed", str(rep_seed)] + T["extra"]
-    p = sh(cmd, timeout=7200)
+    p = sh(cmd, timeout=7200, check=False)
+    died = p.returncode < 0 or p.returncode in (101, 134)
+    if p.returncode != 0 and not died:
+        raise ToolError("command failed (%d): %s\n%s" % (p.returncode, cmd, (p.stdout or "")[-4000:]))
+    return trace, p, died
+
+
+def run_cases(pid, S, T, work, cases, rep_seed, tag):
+    trace, p, died = _run_harness(S, T, work, cases, rep_seed, tag)
+    killed = None
+    if died:
+        # Which case ends the process?  Bisect on prefixes of the case list (a prefix keeps the random stream
+        # of the cases before it); the prefix that survives is validated as usual.
+        rc = p.returncode
+        lo, hi = 0, len(cases)          # cases[:lo] survives, cases[:hi] does not
+        while hi - lo > 1:
+            mid = (lo + hi) // 2
+            _, _, d = _run_harness(S, T, work, cases[:mid], rep_seed, tag + "-bisect")
+            lo, hi = (lo, mid) if d else (mid, hi)
+        killed = {"kind": "%s_process_killed_exit_%d" % (S["sub"], rc), "props": [pid], "run": hi, "line": 10 ** 9,
+                  "tail": (p.stdout or "")[-600:]}
+        log("[%s] the code under test ended the harness process (exit %d) in case %d of %d" % (pid, rc, hi, len(cases)))
+        trace, p, died = _run_harness(S, T, work, cases[:lo], rep_seed, tag)
+        if died:
+            raise ToolError("harness process dies irreproducibly (exit %d)" % rc)
     summ = json.loads(p.stdout.strip().splitlines()[-1])
     mod, cfg = S["trace"]
     r = tlc(mod, cfg, work, workers=1, trace=trace, timeout=7200, xmx="12g")
     if not r.ok:
         raise ToolError("trace validation did not complete for %s:\n%s" % (pid, r.out[-3000:]))
+    if killed:
+        r.viol.append(killed)
     return trace, summ, r
 
 
